@@ -345,7 +345,8 @@ def run_shard(spec, tier, seed):
     ctx = Ctx()
     c, first, L = spec["c"], spec["first"], spec["L"]
     try:
-        for rest in itertools.product((1.0, 2.0, 3.0), repeat=L - 1):
+        # 2.000004 prints as 2.0000e+00: a near-tie inside the history's precision (the earlier epoch stays best)
+        for rest in itertools.product((1.0, 2.0, 2.000004, 3.0), repeat=L - 1):
             metrics = (first,) + rest
             try:
                 full = explore_history(ctx, c, metrics, tier)
